@@ -38,6 +38,12 @@ def main() -> int:
         j = run.job(d, want=["manifest"], plan={"fn": "c10", "args": {"seed": seed()}}, cfg={"literal_enums": label.endswith(("1", "3"))})
         info[j["id"]] = (label, {"sharing"})
         jobs.append(j)
+    for k_, (label, d) in enumerate(docs.interplay_docs()):
+        if not d["components"]["schemas"] or (quick and k_ % 4 and "typed_nullable" not in label) or any(x_ in label for x_ in ("named_Union", "named_Unset")):
+            continue
+        j = run.job(d, want=["manifest"], plan={"fn": "c10", "args": {"seed": seed()}}, cfg={"literal_enums": k_ % 2 == 0})
+        info[j["id"]] = (label, {"interplay", label.split(":")[1].rsplit("_", 1)[0]})
+        jobs.append(j)
     for i in range(120 if quick else 3000):
         d, feats = docs.random_doc(("C10", seed(), i))
         j = run.job(d, want=["manifest"], plan={"fn": "c10", "args": {"seed": seed() * 7919 + i}}, cfg={"literal_enums": i % 4 == 3})
@@ -74,7 +80,8 @@ def main() -> int:
                     ev.count("attributes_checked")
                     req = p["name"] in mo["required"]
                     nul = docs.nullable(sch, comps)
-                    declared_default = isinstance(sch, dict) and sch.get("default") is not None
+                    # a default may come from any declaration of the property (an inherited one stays when a later member re-declares the type)
+                    declared_default = any(isinstance(s_, dict) and (s_.get("default") is not None or docs.resolve(s_, comps).get("default") is not None) for s_ in mo["properties"][p["name"]])
                     kindsig = ("req" if req else "opt", "null" if nul else "nonnull", "dflt" if declared_default else "nodflt")
                     if req and not declared_default and f["has_default"]:
                         vd.violation("required_has_default", f"{name}.{p['name']} is required without default but the constructor argument has default {f['default']}", w)
@@ -83,7 +90,11 @@ def main() -> int:
                     if not req and not declared_default and f["has_default"] and (f["default"] or {}).get("t") != "Unset":
                         vd.violation("optional_default_not_unset", f"{name}.{p['name']} is optional without default but defaults to {f['default']}", w)
                     if not untyped(sch, comps) and f["annotation"] not in (None, "Any"):
-                        if f["admits_none"] != nul:
+                        wrapper = isinstance(sch, dict) and "type" in sch and any(isinstance(sch.get(kw_), list) and len(sch[kw_]) == 1 and "$ref" in sch[kw_][0] for kw_ in ("allOf", "oneOf", "anyOf"))
+                        if f["admits_none"] != nul and nul and wrapper:
+                            # mechanism: explicit type + nullable + a single-element wrapper around a reference is passed through to the reference
+                            vd.violation("none_admission:missing:typed_single_reference_wrapper", f"{name}.{p['name']}: schema nullable=True but annotation {f['annotation']} admits None=False", w)
+                        elif f["admits_none"] != nul:
                             vd.violation(f"none_admission:{'missing' if nul else 'spurious'}:model", f"{name}.{p['name']}: schema nullable={nul} but annotation {f['annotation']} admits None={f['admits_none']}", w)
                         if f["admits_unset"] != (not req):
                             vd.violation(f"unset_admission:{'missing' if not req else 'spurious'}:model", f"{name}.{p['name']}: required={req} but annotation {f['annotation']} admits Unset={f['admits_unset']}", w)
